@@ -182,6 +182,16 @@ def run_case(case, r):
             if not okl:
                 break
         r.check(okl, cell("face_to_cell-linear"), "face_to_cell is additive and homogeneous")
+    # results of earlier calls are not changed by later calls
+    if nf >= 2:
+        first = darsia.face_to_cell(g, basis[0].copy())
+        keep1 = first.copy()
+        darsia.face_to_cell(g, basis[1].copy())
+        r.check(np.array_equal(first, keep1), cell("face_to_cell"), "a later call leaves the array returned by an earlier call unchanged")
+        fa = darsia.cell_to_face_average(g, np.ones(shape), "arithmetic")
+        keepa = fa.copy()
+        darsia.cell_to_face_average(g, 3.0 * np.ones(shape), "arithmetic")
+        r.check(np.array_equal(fa, keepa), cell("average-arithmetic-scalar"), "a later call leaves the array returned by an earlier call unchanged")
     # the input flux must not be modified
     u = np.arange(1.0, nf + 1)
     u0 = u.copy()
@@ -263,6 +273,13 @@ def run_case(case, r):
         r.check(okt, cell("tangential"), "tangential reconstruction reproduces a constant field on interior faces")
         r.check(okn, cell("full-reconstruction"), "the normal component of the full reconstruction is the given normal flux, in the column of the face's axis")
         r.check(okf, cell("full-reconstruction"), "full reconstruction of a constant field equals the field on interior faces (normal and tangential parts in the right columns)")
+        # results are the caller's: a later call of the same operator object on another flux must
+        # not change what an earlier call returned (no shared output buffers)
+        keep = [x.copy() for x in tl]
+        other = 2.0 * normal + 1.0
+        tl2 = tan(other, concatenate=False)
+        r.check(all(np.array_equal(x, y) for x, y in zip(tl, keep)), cell("tangential"), "a second call of the operator object leaves the arrays returned by the first call unchanged")
+        r.check(all(np.array_equal(y, 2.0 * x + (1.0 if np.any(x) or True else 0.0) * (tan.mat[i].dot(np.ones(nf)))) for i, (x, y) in enumerate(zip(keep, tl2))), cell("tangential"), "the tangential reconstruction is affine-linear in the flux")
         # concatenated form is the list form stacked
         tc = tan(normal.copy())
         r.check(np.array_equal(tc, np.concatenate(tl, axis=0)), cell("tangential"), "concatenated output equals the stacked per-direction outputs")
